@@ -17,8 +17,20 @@ Local Open Scope N_scope.
 (** [ObsOther]: a response the model has no class for (always a mismatch) *)
 Inductive obs := Obs (p : response) | ObsOther.
 
-Record step := { st_req : request; st_obs : obs; st_locks : list (option lockrec) }.
-Record case := { c_keys : list bytes; c_steps : list step }.
+(** [st_check_locks = false]: the locks after this step were not observed (first request of a race) *)
+Record step := { st_req : request; st_obs : obs; st_locks : list (option lockrec); st_check_locks : bool }.
+
+(** A case is a request sequence, or a *race*: after [r_setup], two requests
+    were executed concurrently (one was started while the other held the key
+    latch), then [r_tail].  Commands on a key are serialised by the latch, so
+    the observation must be explained by one of the two serial orders. *)
+Record seqcase := { c_keys : list bytes; c_steps : list step }.
+Record racecase := {
+  r_keys : list bytes; r_setup : list step;
+  r_a : request; r_oa : obs; r_b : request; r_ob : obs;
+  r_locks : list (option lockrec);          (* reader.GetLock of every key after both finished *)
+  r_tail : list step }.
+Inductive case := CSeq (c : seqcase) | CRace (c : racecase).
 
 (** ** decidable equalities *)
 Definition option_eqb {A} (f : A -> A -> bool) (a b : option A) : bool :=
@@ -89,7 +101,7 @@ Fixpoint model_ok (c : cfg) (keys : list bytes) (s : store) (sts : list step) : 
   | [] => true
   | st :: sts' =>
       let '(s1, p) := apply_req c s (st_req st) in
-      obs_is (st_obs st) p && locks_eqb (map (get_lock s1) keys) (st_locks st) &&
+      obs_is (st_obs st) p && (negb (st_check_locks st) || locks_eqb (map (get_lock s1) keys) (st_locks st)) &&
       model_ok c keys s1 sts'
   end.
 
@@ -107,17 +119,47 @@ Fixpoint spec_ok (strict : bool) (keys : list bytes) (a : lstate) (sts : list st
                     if strict then p else let '(kvs, e) := lscan_blind a sk inc lim v in PScan kvs e
                 | _ => p
                 end in
-      obs_is (st_obs st) p' && locks_eqb (map (llock_rec a1) keys) (st_locks st) &&
+      obs_is (st_obs st) p' && (negb (st_check_locks st) || locks_eqb (map (llock_rec a1) keys) (st_locks st)) &&
       spec_ok strict keys a1 sts'
   end.
 
 Definition req_ok_all (sts : list step) : bool := forallb (fun st => req_ok (st_req st)) sts.
 
-Definition check (c : case) : verdict :=
-  let m := negb (model_ok current (c_keys c) empty_store (c_steps c)) in
-  let v := negb (spec_ok true (c_keys c) lempty (c_steps c)) in
-  let k := if v && spec_ok false (c_keys c) lempty (c_steps c) then 1 else 0 in
-  mk_verdict m v k.
+(** the two serial explanations of a race *)
+Definition race_orders (c : racecase) : list (list step) :=
+  let mk x ox y oy :=
+    (r_setup c ++
+     [{| st_req := x; st_obs := ox; st_locks := []; st_check_locks := false |};
+      {| st_req := y; st_obs := oy; st_locks := r_locks c; st_check_locks := true |}] ++ r_tail c)%list in
+  [mk (r_a c) (r_oa c) (r_b c) (r_ob c); mk (r_b c) (r_ob c) (r_a c) (r_oa c)].
+
+(** history-only oracle of C19: once a Commit / Resolve-commit of transaction [s] on [k] was
+    acknowledged, [k] must not report a lock of [s] after both requests finished *)
+Definition commit_acked (r : request) (o : obs) : list (bytes * N) :=
+  match r, o with
+  | RCommit ks s _, Obs (PCommit None) => map (fun k => (k, s)) ks
+  | _, _ => []
+  end.
+Definition lock_reappeared (c : racecase) : bool :=
+  existsb (fun '(k, s) =>
+             existsb (fun '(k', l) => bytes_eqb k k' && match l with Some l0 => l_ts l0 =? s | None => false end)
+                     (combine (r_keys c) (r_locks c)))
+          (commit_acked (r_a c) (r_oa c) ++ commit_acked (r_b c) (r_ob c))%list.
+
+Definition check_gen (strict : bool) (c : case) : verdict :=
+  match c with
+  | CSeq c =>
+      let m := negb (model_ok current (c_keys c) empty_store (c_steps c)) in
+      let v := negb (spec_ok strict (c_keys c) lempty (c_steps c)) in
+      let k := if strict && v && spec_ok false (c_keys c) lempty (c_steps c) then 1 else 0 in
+      mk_verdict m v k
+  | CRace c =>
+      let m := negb (existsb (model_ok current (r_keys c) empty_store) (race_orders c)) in
+      let v := negb (existsb (spec_ok false (r_keys c) lempty) (race_orders c)) || lock_reappeared c in
+      mk_verdict m v 0
+  end.
+
+Definition check (c : case) : verdict := check_gen true c.
 
 (** ** constructor helpers: the harness prints byte strings as hex literals *)
 Definition B (s : string) : bytes := unhex s.
@@ -142,5 +184,9 @@ Definition AGLocked (k : string) (l : lockrec) := Obs (PGet (GLocked (B k) l)).
 Definition AScan (kvs : list (string * string)) (e : option key_error) :=
   Obs (PScan (map (fun '(k, v) => (B k, B v)) kvs) e).
 Definition St (r : request) (o : obs) (ls : list (option lockrec)) : step :=
-  {| st_req := r; st_obs := o; st_locks := ls |}.
-Definition Cs (ks : list string) (sts : list step) : case := {| c_keys := map B ks; c_steps := sts |}.
+  {| st_req := r; st_obs := o; st_locks := ls; st_check_locks := true |}.
+Definition Cs (ks : list string) (sts : list step) : case := CSeq {| c_keys := map B ks; c_steps := sts |}.
+Definition Rc (ks : list string) (setup : list step) (a : request) (oa : obs) (b : request) (ob : obs)
+           (ls : list (option lockrec)) (tail : list step) : case :=
+  CRace {| r_keys := map B ks; r_setup := setup; r_a := a; r_oa := oa; r_b := b; r_ob := ob;
+           r_locks := ls; r_tail := tail |}.
